@@ -167,6 +167,13 @@ def runfor_part(ck, tier):
                     base.time = clock.read_loop
                     util.time = clock.read_other
                     ch = TickChain(display) if kind == "tick" else _mk_chain("gibbs", 3, display=display)
+                    # every other run of the cheap chain starts from a chain that already has a history
+                    history = 4000 if (kind == "tick" and len(runs) % 2 == 1) else 0
+                    if history:
+                        base.time, util.time = real_base, real_util                 # the history is not part of the timed run
+                        with contextlib.redirect_stdout(io.StringIO()):
+                            ch.advance(history)
+                        base.time, util.time = clock.read_loop, clock.read_other
                     orig = ch.take_step
                     state = {"j": 0}
 
@@ -181,7 +188,8 @@ def runfor_part(ck, tier):
                             ev.append({"ev": "Steps", "n": 1})
                     ch.take_step = stepped
                     before = ch.chain_length
-                    ev.append({"ev": "Begin", "budget": int(round(budget_s * 1e6))})
+                    ev.append({"ev": "Begin", "budget": int(round(budget_s * 1e6)), "uniform": bool(len(set(costs)) == 1),
+                               "cmax": int(round(max(costs) * 1e6)), "history": history})
                     err = None
                     wall = _time.time()
                     try:
@@ -194,7 +202,7 @@ def runfor_part(ck, tier):
                     except Exception as ex:
                         err = repr(ex)
                     ev.append({"ev": "End", "added": int(ch.chain_length - before)})
-                    ident = {"class": type(ch).__name__, "budget_s": budget_s, "run_for_arguments": kw, "step_costs_s": costs, "display_progress": display}
+                    ident = {"class": type(ch).__name__, "budget_s": budget_s, "run_for_arguments": kw, "step_costs_s": costs, "display_progress": display, "steps_before_the_timed_run": history}
                     ck.case(("runfor", kind, b["budget"], tuple(b["costs"]), display))
                     if err:
                         ck.violation("run_for raised", {**ident, "error": err}, site="MarkovChain.run_for")
@@ -224,10 +232,12 @@ def runfor_part(ck, tier):
             bad = None
             j = start
             budget = events[start]["budget"]
+            uni, cmax, last = events[start].get("uniform", False), events[start].get("cmax", 0), 0
             for e in events[start + 1:]:
                 if e["ev"] == "Begin":
                     break
                 if e["ev"] == "Clock":
+                    last = e["t"]
                     if deadline is None:
                         deadline = e["t"] + budget
                     else:
@@ -243,6 +253,8 @@ def runfor_part(ck, tier):
                 elif e["ev"] == "End":
                     if not over:
                         bad = "ExitOnlyAfterBudget"
+                    elif uni and (last - deadline - cmax) // 2 > max(20 * cmax, 1000000):
+                        bad = "OverrunBounded (returned %.1f s after the deadline; every step costs %.4f s)" % ((last - deadline) / 1e6, cmax / 1e6)
             if worst > 6:
                 bad = "StarvationFree"
             if bad:
